@@ -969,9 +969,13 @@ class C05(Spec):
         "layer separation: the layers are read off the table positions (z < 0: lower, z > 0: upper; checked on every run to be "
         "the split by nominal elevation < -10 / > 10 degrees); PROVED with slack 3e-11 (three times the 1e-11 acceptance "
         "tolerance of Triplet.handle; directions of any length): lower clause without hypothesis "
-        "(layer_separation_lower_layouts), upper clause under the hypothesis that the QuadRegions with an upper-layer corner "
-        "reject directions below the plane (layer_separation_upper_layouts_partial; without hypothesis for 3+7+0, "
-        "layer_separation_upper_noquad); sampled on the real panner with z offsets 3.1e-11 .. 2 (gains must be exactly 0.0)",
+        "(layer_separation_lower_layouts), upper clause under the hypothesis Cover.QuadsZeroFar that every QuadRegion with an "
+        "upper-layer corner, asked for a direction below the plane, answers None OR gives its upper-layer corners the weight "
+        "exactly 0 (layer_separation_upper_layouts_partial; without hypothesis for 3+7+0, layer_separation_upper_noquad). The "
+        "quads do NOT always answer None there: for p.z between about -1e-10 and -3e-11 the vertical pan root is still inside "
+        "pan_axis' window, is clipped to 0 and the quad accepts with upper gains exactly 0.0 (instance proved as an example "
+        "on 4+5+0; the real panner does the same). Sampled on the real panner with z offsets 3.1e-11 .. 2 (gains must be "
+        "exactly 0.0); both conclusions also state that the answer has one entry per loudspeaker",
         "NOT proved: totality / exactness on real (non-nominal) positions, side dominance, the QuadRegion step of the upper-"
         "layer clause, symmetry of the composed panner, anything about rounding - watched by the search",
     )
@@ -990,8 +994,21 @@ class C05(Spec):
         changed = write_if_changed(os.path.join(common.GEN, "C05_Tables.lean"), text)
         ctx.count("tables:regenerated" if changed else "tables:unchanged")
         ctx.notes.append("Gen/C05_Tables.lean: %d bytes, %d region definitions" % (len(text), text.count(": RawRegion")))
-        self.extract_cover(ctx)
-        self.extract_exact(ctx)
+        # An exception other than CoverError / ExactError (those are handled inside and give empty certificates for the
+        # layout / loudspeaker concerned) must not leave an OLD certificate file beside the NEW table: write certificates
+        # that are empty for every layout (the kernel checks cover_tables_ok / exact_tables_ok then fail) and re-raise.
+        try:
+            self.extract_cover(ctx)
+        except Exception:
+            write_if_changed(os.path.join(common.GEN, "C05_Cover.lean"),
+                             c05_cover.lean_text(LAYOUT_NAMES, [None] * len(LAYOUT_NAMES), 0))
+            raise
+        try:
+            self.extract_exact(ctx)
+        except Exception:
+            write_if_changed(os.path.join(common.GEN, "C05_Exact.lean"),
+                             c05_exact.lean_text(LAYOUT_NAMES, [[] for _ in LAYOUT_NAMES]))
+            raise
 
     def extract_exact(self, ctx):
         """Exactness-at-loudspeaker certificate (Gen/C05_Exact.lean) and the layer-separation side conditions from the real
@@ -1038,7 +1055,7 @@ class C05(Spec):
                                else "%s %s" % (plo[0], json.dumps(plo[1])))
                 ctx.obligation("layer-upper:" + pan.name, pup is None,
                                "%d upper-layer loudspeakers; every Triplet/VirtualNgon feeding one has all vertices at z >= 0; %d QuadRegions "
-                               "(hypothesis of layer_separation_upper_layouts_partial)" % (len(up), len(quads)) if pup is None
+                               "(hypothesis QuadsZeroFar of layer_separation_upper_layouts_partial: None or weight 0 on the upper corners)" % (len(up), len(quads)) if pup is None
                                else "%s %s" % (pup[0], json.dumps(pup[1])))
                 ctx.count("layer|upper-quads|" + pan.name, len(quads))
         text = c05_exact.lean_text(LAYOUT_NAMES, certs)
@@ -1378,7 +1395,42 @@ class C05(Spec):
             for h in hits:
                 ctx.hit(h["what"], h["input"], h["detail"], h["tags"])
 
+    def _reuse_probe(self, ctx):
+        """One configured panner called repeatedly: (a) with ONE position buffer overwritten in place between calls (what a
+        caller streaming directions through a preallocated array does), (b) keeping every returned gain vector and re-reading
+        it after all later calls.  `handle` must be a function of the direction's VALUE alone and must hand out arrays that
+        later calls leave alone: compared with a fresh panner / fresh arrays.  Deterministic (no rng): loudspeaker positions
+        and a fixed Fibonacci set, forwards and backwards, on four layouts."""
+        for name in ("0+2+0", "0+5+0", "4+5+0", "9+10+3"):
+            shared = Pan(name, name)
+            fresh = Pan(name, name)
+            dirs = [np.array(v, dtype=float) for v in shared.positions] + [np.array(v) for v in fibonacci(24)]
+            dirs = dirs + dirs[::-1]
+            buf = np.zeros(3)
+            kept = []
+            for i, d in enumerate(dirs):
+                buf[:] = d
+                got = shared.handle(buf)
+                want = fresh.handle(np.array(d, copy=True))
+                ctx.count("reuse-probe:calls")
+                if (got is None) != (want is None) or (got is not None and not np.allclose(got, want, rtol=0, atol=1e-12)):
+                    ctx.hit("handle depends on earlier calls: a position buffer overwritten in place gives the gains of an "
+                            "earlier direction", dict(layout=name, call_index=i, direction=[float(x) for x in d],
+                                                      previous_direction=[float(x) for x in dirs[i - 1]] if i else None),
+                            dict(got=None if got is None else [float(x) for x in got],
+                                 fresh=None if want is None else [float(x) for x in want]), ["position-buffer-reuse"])
+                    break
+                if got is not None:
+                    kept.append((got, np.array(got, copy=True), i))
+            for arr, snap, i in kept:
+                if not np.array_equal(arr, snap):
+                    ctx.hit("a gain vector returned by handle changed under later calls", dict(layout=name, call_index=i),
+                            dict(when_returned=[float(x) for x in snap], later=[float(x) for x in arr]),
+                            ["returned-gains-aliased"])
+                    break
+
     def search(self, ctx, deep):
+        self._reuse_probe(ctx)
         if deep:
             self._search(ctx, budget=5000000 if not ctx.quick else 600000, n_real=60 if not ctx.quick else 20, catalogue=True)
         else:
@@ -1421,9 +1473,14 @@ REGISTRY = dict(
     "loudspeaker - is a Triplet/VirtualNgon with independent positions all at z in [-1, 0]; for the upper layer such a region "
     "with z in [0, 1] or a QuadRegion), layer_separation_lower_layouts (NO hypothesis: p.z > 3e-11 => every lower-layer "
     "loudspeaker gets exactly 0; B+000, B+-045 on 4+5+1 and 9+10+3), layer_separation_upper_layouts_partial (p.z < -3e-11 => "
-    "upper-layer loudspeakers get exactly 0 under the hypothesis Cover.QuadsRejectFar: the QuadRegions with an upper-layer corner "
-    "answer None below the plane - a quad finds pan values on the antipodal cone too and rejects it only by its final sign "
-    "test), layer_separation_upper_noquad (no hypothesis when no QuadRegion has an upper-layer corner: 3+7+0). "
+    "upper-layer loudspeakers get exactly 0 under the hypothesis Cover.QuadsZeroFar: every QuadRegion with an upper-layer corner, "
+    "asked for such a direction, answers None OR gives its upper-layer corners the weight exactly 0 - a quad finds pan values "
+    "on the antipodal cone too and rejects it only by its final sign test, and for p.z between about -1e-10 and -3e-11 the "
+    "vertical pan root is still inside pan_axis' window (-1e-10, 1+1e-10), is clipped to 0 and the quad ACCEPTS with weight "
+    "exactly 0 on the upper corners; an instance of the hypothesis is proved as an example (4+5+0, rear mid/upper quad, "
+    "direction (0, -2^34, -1): Cover.quadAxisOk + AxisIn.eq_zero); the hypothesis itself - a statement about the roots of the "
+    "two quadratics at a general direction incl. np.roots' nearly-real complex pairs - is NOT proved), both with the "
+    "conclusion out.length = nReal and out[k] = 0, layer_separation_upper_noquad (no hypothesis when no QuadRegion has an upper-layer corner: 3+7+0). "
     "NOT proved (searched on the real code): totality and exactness on real (non-nominal) positions, side dominance, the "
     "QuadRegion step of the upper-layer clause, symmetry of the composed panner; rounding; that np.roots lists the roots in "
     "the order GainCalc.quadRoot assumes.",
